@@ -344,6 +344,44 @@ theorem C03_execG_structured (ω : Nat → Val) (s : SStmt) (hs : structured s =
 
 example : structured exampleNest = true := by decide
 
+/-- **C03 (named labels: a jump binds to the labelled statement of exactly its own name).**  Label
+    names are their own name space with function scope (6.2.1p3, 6.2.3); the model compares names
+    for equality, as `resolve_goto_labels` does with `strcmp` (the text of that function and of the
+    three places that record a label / `goto` / `&&label` name is pinned by the check, and generated
+    programs use names that are proper prefixes of one another and names of functions, objects,
+    typedefs and tags).  For every function the parser accepts: every `goto l` and `goto *&&l`
+    node received the unique label `t` of a labelled statement of the same function whose name is
+    exactly `l` (`(l, t) ∈ labelPairs st`); the labelled statements of the parsed tree are those of the
+    source, name by name; distinct labelled statements have distinct unique labels (so with
+    `C03_labels` the jump has exactly one target, the statement so named); and consequently every
+    name a jump uses is defined in the function — a function that jumps to an undefined label is not
+    accepted (`error_tok(…, "use of undeclared label")`).  If a name is defined twice (a constraint
+    violation chibicc does not diagnose) the jump binds to one of the statements so named. -/
+theorem C03_label_binds (u0 : Nat) (s : SStmt) (st : Stmt) (u1 : Nat) (h : parseFn u0 s = .ok (st, u1)) :
+    GotoR (fun l t => (l, t) ∈ labelPairs st) True st ∧
+    (labelPairs st).map (·.1) = labelNames s ∧
+    ((labelPairs st).map (·.2)).Nodup ∧
+    ∀ l ∈ jumpNames s, l ∈ labelNames s := by
+  have hB := C03_break_binds_fn u0 s st u1 h
+  have hR := parseFn_gotoR h
+  have hN : (labelPairs st).map (·.1) = labelNames s := by rw [← hB.2, labelNames_erase]
+  refine ⟨hR, hN, (labelPairs_sublist st).nodup (parseFn_defs_nodup h), ?_⟩
+  intro l hl
+  rw [← hB.2] at hl
+  obtain ⟨t, ht⟩ := gotoR_names st hR l hl
+  rw [← hN]
+  exact List.mem_map_of_mem (f := fun p : Nat × Nat => p.1) ht
+
+/-- non-vacuity: names 1, 10, 11 (think `L1`, `L10`, `L11`), jumps to each, `L1` defined before the
+    longer names; and a function that jumps to an undefined name is rejected -/
+def exampleLabels : SStmt :=
+  .block (.seq (.goto_ 1) (.seq (.label 1 (.marker 1)) (.seq (.gotoVal 10) (.seq (.label 11 (.marker 2))
+    (.seq (.label 10 (.marker 3)) (.seq (.goto_ 11) .skip))))))
+
+example : (parseFn 0 exampleLabels).toBool = true ∧
+    (match parseFn 0 (.block (.seq (.label 10 (.marker 1)) (.seq (.goto_ 1) .skip))) with
+     | .error .undeclaredLabel => true | _ => false) = true := by decide
+
 /-- The statement in the form it was first written: ONE function `execG` that is *equal* to `exec`, fuel
     included, on structured statements and is simulated by the code of *every* function the parser
     accepts.  Not proved, and in this literal form not the right target — the three places where it
